@@ -26,8 +26,11 @@ git -C /repo worktree remove --force $WT; rm -rf $WT
 if [ -n "$(git -C /repo status --porcelain)" ]; then echo "seedeval: /repo has uncommitted changes; commit them first" >&2; exit 3; fi
 detected=no; status=""
 if git -C /repo apply $OUT/patch.diff; then
+  cp /verif/evidence/$PROP.json /tmp/evidence_$PROP.keep 2>/dev/null
   /verif/check $PROP quick > $OUT/check_with_mutation.log 2>&1; rc=$?
   git -C /repo checkout -- . 
+  # the evidence file must describe the unchanged tree, not the mutated one
+  [ -f /tmp/evidence_$PROP.keep ] && mv /tmp/evidence_$PROP.keep /verif/evidence/$PROP.json
   [ $rc -eq 1 ] && detected=yes
   status="exit=$rc"
 else
